@@ -112,7 +112,11 @@ class RustMagicNumberAnalyzer(RustBaseAnalyzer):
             "f32",
             "f64",
         )
+        # In a hex literal "f32"/"f64" are digits, not a float suffix (0x1f32 == 7986)
+        is_hex = text[:2].lower() == "0x"
         for suffix in suffixes:
+            if is_hex and suffix.startswith("f"):
+                continue
             if text.endswith(suffix):
                 return text[: -len(suffix)]
         return text
